@@ -8,7 +8,10 @@ import (
 	"crypto/sha256"
 	stdx509 "crypto/x509"
 	"crypto/x509/pkix"
+	"encoding/asn1"
+	"encoding/json"
 	"fmt"
+	"os"
 	"path/filepath"
 	"regexp"
 	"sort"
@@ -191,6 +194,7 @@ func subC05(out string, seed uint64, tier string, arg string) {
 	// targeted histories first: caches keyed by TLD / key material must still be cold
 	targetedHistories(rep, rng, g, tier)
 	sharedBufferHistories(rep, rng, g, objs, tier)
+	zoneBoundarySearch(rep, rng, g, objs, tier)
 	var history []*Obj
 	for i := 0; i < nobj && i < len(objs); i++ {
 		o := objs[(i*11+int(seed))%len(objs)]
@@ -783,4 +787,154 @@ func sharedBufferHistories(rep *Report, rng *RNG, g lint.Registry, objs []*Obj, 
 		}
 		passes(seq, "corpus+flips")
 	}
+}
+
+// zoneBoundarySearch: the process's local time zone is environment. A rule that does calendar arithmetic on a value that
+// picked up time.Local (time.Unix, Local(), In(time.Local)) answers differently only for validity periods that start
+// within hours of a month boundary and end within days of "N months later" — so certificates are re-dated to exactly
+// those shapes and linted under UTC, a far-western and a far-eastern local zone.
+func zoneBoundarySearch(rep *Report, rng *RNG, g lint.Registry, objs []*Obj, tier string) {
+	var certs []*Obj
+	// kit certificates in the scopes of the validity-period rules: BR DV leaf, EV leaf, sub CA
+	for i, spec := range []CertSpec{
+		{DNS: []string{"zone.example.com", "x_y.example.com"}, Subject: pkixName("zone.example.com"), EKUs: []stdx509.ExtKeyUsage{stdx509.ExtKeyUsageServerAuth}, Policies: []asn1.ObjectIdentifier{{2, 23, 140, 1, 2, 1}}},
+		{DNS: []string{"ev.example.com"}, Subject: pkixName("ev.example.com"), EKUs: []stdx509.ExtKeyUsage{stdx509.ExtKeyUsageServerAuth}, Policies: []asn1.ObjectIdentifier{{2, 23, 140, 1, 1}}},
+		{IsCA: true, Subject: pkixName("Zone Sub CA"), KeyUsage: stdx509.KeyUsageCertSign},
+	} {
+		if der, err := BuildCert(spec); err == nil {
+			if o := parseObj("cert", fmt.Sprintf("kit-zone-%d", i), der); o != nil {
+				certs = append(certs, o)
+			}
+		}
+	}
+	nCorpus := 3
+	if tier == "thorough" {
+		nCorpus = 60
+	}
+	var pool []*Obj
+	for _, o := range objs {
+		if o.Kind == "cert" {
+			pool = append(pool, o)
+		}
+	}
+	for i := 0; i < nCorpus && len(pool) > 0; i++ {
+		certs = append(certs, pool[rng.Intn(len(pool))])
+	}
+	// only the rules whose footprint (regenerated from the source) reads a date can be affected; fall back to all of them
+	if names := dateReadingLints(); len(names) > 0 {
+		if freg, err := g.Filter(lint.FilterOptions{IncludeNames: names}); err == nil {
+			g = freg
+			rep.count(fmt.Sprintf("zone-boundary-lints=%d", len(names)))
+		}
+	}
+	months := []int{12, 13, 15, 27, 39, 60}
+	days := []int{90, 397, 398, 825}
+	zones := []*time.Location{time.FixedZone("west", -11*3600), time.FixedZone("east", 13*3600+45*60)}
+	savedLocal := time.Local
+	defer func() { time.Local = savedLocal }()
+	type ym struct {
+		y int
+		m time.Month
+	}
+	var yms []ym
+	for y := 2012; y <= 2024; y++ {
+		ms := []time.Month{1, 3, 5, 12}
+		if tier == "thorough" {
+			ms = []time.Month{1, 2, 3, 4, 5, 6, 7, 8, 9, 10, 11, 12}
+		} else if y%2 == 1 && y != 2017 {
+			continue
+		}
+		for _, m := range ms {
+			yms = append(yms, ym{y, m})
+		}
+	}
+	for _, o := range certs {
+		for _, when := range yms {
+			cd, err := ParseCertDER(o.DER)
+			if err != nil {
+				continue
+			}
+			year, month := when.y, when.m
+			starts := []time.Time{
+				time.Date(year, month, 1, 0, 30, 0, 0, time.UTC),                       // still the previous month west of Greenwich
+				time.Date(year, month, 1, 0, 0, 0, 0, time.UTC).Add(-30 * time.Minute), // already the next month east of it
+			}
+			for _, nb := range starts {
+				var ends []time.Time
+				for _, m := range months {
+					lim := nb.AddDate(0, m, 0)
+					for _, d := range []time.Duration{-50 * time.Hour, -26 * time.Hour, -time.Hour, time.Hour, 26 * time.Hour, 50 * time.Hour} {
+						ends = append(ends, lim.Add(d))
+					}
+				}
+				for _, dd := range days {
+					lim := nb.AddDate(0, 0, dd)
+					ends = append(ends, lim.Add(-time.Hour), lim.Add(time.Hour))
+				}
+				for _, na := range ends {
+					cd.SetValidity(nb, na)
+					v := parseObj("cert", o.Name+"@zone-boundary", cd.Bytes())
+					if v == nil || v.Cert == nil {
+						rep.count("zone-boundary-rejected")
+						continue
+					}
+					time.Local = time.UTC
+					rs0, p0 := lintObj(v, g)
+					if p0 != "" || rs0 == nil {
+						continue
+					}
+					rep.Evaluations++
+					rep.count("zone-boundary-certs")
+					for _, z := range zones {
+						time.Local = z
+						c := v.reparse()
+						if c == nil {
+							continue
+						}
+						rsZ, pZ := lintObj(c, g)
+						if pZ == "" && rsZ != nil {
+							if d, ok := sameResults(rs0, rsZ); !ok {
+								rep.violate(Violation{"C05", fmt.Sprintf("linting %s (validity %s .. %s) with the process's local time zone set to %s gives a different result than under UTC: %s", v.Name, nb.Format(time.RFC3339), na.Format(time.RFC3339), z, d),
+									"timezone:" + lintNameOf(d), replayOf(v, map[string]interface{}{"diff": d, "zone": z.String(), "not_before": nb.Format(time.RFC3339), "not_after": na.Format(time.RFC3339)})})
+							}
+						}
+					}
+					time.Local = time.UTC
+				}
+			}
+		}
+	}
+}
+
+// lints whose regenerated footprint reads a date field of the linted object
+func dateReadingLints() []string {
+	exe, _ := os.Executable()
+	p := filepath.Join(filepath.Dir(filepath.Dir(exe)), "facts.json")
+	if v := os.Getenv("VERIF_FACTS"); v != "" {
+		p = v
+	}
+	data, err := os.ReadFile(p)
+	if err != nil {
+		return nil
+	}
+	var f struct {
+		Registrations []struct {
+			Name  string   `json:"name"`
+			Kind  string   `json:"kind"`
+			Reads []string `json:"reads"`
+		} `json:"registrations"`
+	}
+	if json.Unmarshal(data, &f) != nil {
+		return nil
+	}
+	var out []string
+	for _, r := range f.Registrations {
+		for _, rd := range r.Reads {
+			if strings.Contains(rd, "NotBefore") || strings.Contains(rd, "NotAfter") {
+				out = append(out, r.Name)
+				break
+			}
+		}
+	}
+	return out
 }
